@@ -47,7 +47,8 @@ def _data_points(args):
         elif kind == 'short':
             src = '%s %s\n' % (name, _spell(v, rng))
         else:
-            src = 'pack %s%s%s %s\n' % ('<' if kind == 'packle' else '>', name, rng.choice([',', '']), _spell(v, rng))
+            prefix = {'packle': '<', 'packbe': '>', 'packeq': '=', 'packnat': rng.choice(['', '@'])}[kind]
+            src = 'pack %s%s%s %s\n' % (prefix, name, rng.choice([',', '']), _spell(v, rng))
         rec = impl.assemble_recorded(src, compress=False)
         got = list(rec['out']) if rec['status'] == 'ok' else None
         res.append((kind, name, v, src, expected, got, rec['status'] if rec['status'] != 'ok' else 'ok'))
@@ -217,7 +218,7 @@ def c10(run, scratch):
     run.coverage['string_points'] = len(spts)
     run.coverage['include_bytes_scenarios'] = len(ib)
     run.coverage['exhaustive'] = True
-    run.coverage['rule'] = ('TLC enumerates (DataSpace) and AsmData gives the expected bytes: 5 sequence directives + 4 shorthand packs + 10 pack formats x 2 byte orders '
+    run.coverage['rule'] = ('TLC enumerates (DataSpace) and AsmData gives the expected bytes: 5 sequence directives + 4 shorthand packs + 10 pack formats x 4 byte-order/size prefixes (<, >, =, native) '
                             'x values (width 1: -140..270; width 2: all of -32780..65545 in the thorough tier, boundary bands otherwise; widths 4/8: +-3 around '
                             '-2^(8w), -2^(8w-1), 0, 2^(8w-1), 2^(8w) of every smaller width too, interior values, 2^40, 2^65); every string of <= 2 (3) atoms over '
                             '21 atoms (ASCII, space, # " \' , ( ), 2/3/4-byte UTF-8, \\n \\t \\\\ \\\' \\" \\x41 \\xe9 \\101 \\0); include_bytes of 5 contents found beside the source, '
@@ -228,7 +229,7 @@ def c10(run, scratch):
         run.sample({'string_code_points': p[0], 'expected': p[1]})
     run.sample(ib[0][0])
     run.coverage['trusted_base'] = ['TLC', 'AsmData.tla as the reading of docs/assembly_language.rst (two\'s complement, struct formats, UTF-8, backslash escapes)']
-    run.assumptions += ['"does not fit": outside [-2^(8w-1), 2^(8w)) for the sequence and shorthand directives, outside the signed / unsigned range of the format for pack',
+    run.assumptions += ['a pack format without byte-order prefix (or with @) uses the host\'s native sizes: modelled for an LP64 little-endian host (l, L = 8 bytes), which is what this sandbox is', '"does not fit": outside [-2^(8w-1), 2^(8w)) for the sequence and shorthand directives, outside the signed / unsigned range of the format for pack',
                         'backslash escapes considered: \\n \\t \\r \\\\ \\\' \\" \\xHH \\ooo; unknown escapes are outside the enumerated space']
 
 
